@@ -71,13 +71,26 @@ def k_group(rows, G):
     return out
 
 
+def k_bricks(rows, off):
+    out = []
+    for (t, e, i, _) in rows:
+        for k in range(e - t + 2):
+            s = t + off + 2 * k - 2
+            a, b = max(t, s), min(e, s + 2)
+            if a < b:
+                out.append((a, b, i, k))
+    return out
+
+
 def kernel(o, rows):
     code, kl, kr = o
     if code == 0:
         return k_count(rows, kl, kr)
     if code == 1:
         return k_copy(rows)
-    return k_group(rows, kl)
+    if code == 2:
+        return k_group(rows, kl)
+    return k_bricks(rows, kl)
 
 
 def kernel_in_property(o, wl, wr):
@@ -87,7 +100,9 @@ def kernel_in_property(o, wl, wr):
         return 0 <= kl <= 2 * wl and 0 <= kr <= 2 * wr
     if code == 1:
         return True
-    return 0 <= kl <= 2 * wl and kl <= 2 * wr
+    if code == 2:
+        return 0 <= kl <= 2 * wl and kl <= 2 * wr
+    return False      # staggered bricks: not nested, outside the theorems (model/implementation verdicts only)
 
 
 # ------------------------------------------------------------------------------------------
@@ -383,10 +398,13 @@ def out_configs(rng, wl, wr, which):
         return [[0, 2 * wl + 2, 2 * wr + 2]]
     if which == "widegroup":
         return [[2, 2 * min(wl, wr) + 2, 0]]
+    if which == "dual_bricks":     # staggered cut points: cache_beyond needs many passes, may hit max_trials
+        return [[3, 0, 0], [3, 1, 0]]
     raise ValueError(which)
 
 
-ALL_WHICH = ["count", "count2", "group", "group2", "dual_copy", "dual_group", "dual_group_first", "wide", "widegroup"]
+ALL_WHICH = ["count", "count2", "group", "group2", "dual_copy", "dual_group", "dual_group_first", "wide", "widegroup",
+             "dual_bricks"]
 
 
 def mk_case(w, which, ch, gen, rng=None, sw=None):
@@ -499,7 +517,7 @@ def cases_of_spec(spec):
             rows = []
             for i in range(n):
                 t += rng.choice([0, 0, 1, 1, 2, 3, 5, 9])
-                ln = rng.choice([1, 1, 2, 3, 8, 20])
+                ln = rng.choice([1, 1, 2, 3, 8, 20, 20, 48])
                 rows.append((t, t + ln, i, 0))
                 t += ln
             s = rng.choice([0, rows[0][0]])
